@@ -1,6 +1,7 @@
 package transaction
 
 import (
+	"github.com/KevoDB/kevo/pkg/verifhook"
 	"sync"
 	"sync/atomic"
 	"time"
@@ -91,6 +92,7 @@ func (m *Manager) BeginTransaction(readOnly bool) (Transaction, error) {
 	// Set transaction as active
 	tx.active.Store(true)
 
+	verifhook.At("tx.begin.beforeLock")
 	// Acquire appropriate lock
 	if mode == ReadOnly {
 		m.txLock.RLock()
@@ -100,6 +102,7 @@ func (m *Manager) BeginTransaction(readOnly bool) (Transaction, error) {
 		tx.hasWriteLock.Store(true)
 	}
 
+	verifhook.At("tx.begin.locked")
 	return tx, nil
 }
 
